@@ -104,9 +104,10 @@ func (fm *Frame) InputFile() *os.File {
 // ValueOutput returns a handle for writing value outputs.
 func (fm *Frame) ValueOutput() ValueOutput {
 	p := fm.ports[1]
-	if p.Chan == ClosedChan {
-		// An input port (for example from "1<file") can't take values, and
-		// sending on its closed channel would panic.
+	if p.Chan == ClosedChan || p.inputOnly {
+		// An input port (for example from "1<file", or the reading end of a
+		// pipe after ">&0") can't take values, and sending on its closed
+		// channel would panic.
 		return valueOutput{nil, closedSendStop, &ErrPortDoesNotSupportValueOutput}
 	}
 	return valueOutput{p.Chan, p.sendStop, p.sendError}
